@@ -60,6 +60,7 @@ def run(chk: core.Check, tier: str, seed: int) -> None:
         texts.append(inject(t.replace("[", "[\n"), rng))
     for t in gen.neighbours("$.a\n.b\n[?@.c ==\n1]\n", rng, 60):
         texts.append(t)
+    texts += corpus.typed_builtin_texts()
     texts = list(dict.fromkeys(texts))
     recs = []
     compiled = 0
